@@ -1098,6 +1098,8 @@ class CallGraph:
                         if isinstance(x, (ast.Name, ast.Attribute)) and isinstance(getattr(x, "ctx", None), ast.Load):
                             try:
                                 r = self.repo.resolve_dotted(fi.module, x)
+                            except (NameError, UnboundLocalError):
+                                raise
                             except Exception:
                                 r = None
                             if r and r[0] == "func":
@@ -1124,6 +1126,8 @@ class CallGraph:
                 if isinstance(a, (ast.Name, ast.Attribute)) and not (isinstance(a, ast.Name) and a.id in params):
                     try:
                         r = self.repo.resolve_dotted(fi.module, a)
+                    except (NameError, UnboundLocalError):
+                        raise
                     except Exception:
                         r = None
                     if r and r[0] == "func":
@@ -1253,6 +1257,8 @@ class CallGraph:
                     parents[id(c)] = n
             try:
                 fi._parents = parents
+            except (NameError, UnboundLocalError):
+                raise
             except Exception:
                 pass
         envs = [{}]
